@@ -396,74 +396,119 @@ func (d *DI) evalPattern(chunks []Chunk) (MV, error) {
 	return strMV(sb.String()), nil
 }
 
-// ParseGoLits parses a comma separated list of Go literals (the subset the
-// generators emit: ints, floats, booleans, nil, interpreted string literals).
+// ParseGoLits parses a comma separated list of the Go expressions the generators emit as parameter-function
+// arguments: ints, floats, booleans, nil, interpreted string literals, any of them in parentheses, and the
+// conversions int(int literal), string(string literal), float64(number literal).
 func ParseGoLits(s string) ([]MV, bool) {
-	s = strings.TrimSpace(s)
-	if s == "" {
+	p := &litParser{s: s}
+	p.ws()
+	if p.i >= len(p.s) {
 		return nil, true
 	}
 	var out []MV
-	i := 0
-	for i < len(s) {
-		for i < len(s) && (s[i] == ' ' || s[i] == '\t') {
-			i++
-		}
-		if i >= len(s) {
+	for {
+		v, ok := p.expr()
+		if !ok {
 			return nil, false
 		}
-		start := i
-		if s[i] == '"' {
-			i++
-			for i < len(s) && s[i] != '"' {
-				if s[i] == '\\' {
-					i++
-				}
-				i++
-			}
-			if i >= len(s) {
-				return nil, false
-			}
-			i++
-			u, err := strconv.Unquote(s[start:i])
-			if err != nil {
-				return nil, false
-			}
-			out = append(out, strMV(u))
-		} else {
-			for i < len(s) && s[i] != ',' {
-				i++
-			}
-			tok := strings.TrimSpace(s[start:i])
-			switch {
-			case tok == "true" || tok == "false":
-				out = append(out, MV{T: "bool", S: tok})
-			case tok == "nil":
-				out = append(out, MV{T: "nil"})
-			default:
-				if n, err := strconv.ParseInt(tok, 10, 64); err == nil {
-					out = append(out, MV{T: "int", S: strconv.FormatInt(n, 10)})
-				} else if f, err := strconv.ParseFloat(tok, 64); err == nil && strings.ContainsAny(tok, ".eE") {
-					out = append(out, MV{T: "float64", S: fmtFloatG(f)})
-				} else {
-					return nil, false
-				}
-			}
+		out = append(out, v)
+		p.ws()
+		if p.i >= len(p.s) {
+			return out, true
 		}
-		for i < len(s) && (s[i] == ' ' || s[i] == '\t') {
-			i++
+		if p.s[p.i] != ',' {
+			return nil, false
 		}
-		if i < len(s) {
-			if s[i] != ',' {
-				return nil, false
-			}
-			i++
-			if strings.TrimSpace(s[i:]) == "" {
-				return nil, false
-			}
+		p.i++
+		p.ws()
+		if p.i >= len(p.s) {
+			return nil, false // trailing comma: not generated
 		}
 	}
-	return out, true
+}
+
+type litParser struct {
+	s string
+	i int
+}
+
+func (p *litParser) ws() {
+	for p.i < len(p.s) && (p.s[p.i] == ' ' || p.s[p.i] == '\t') {
+		p.i++
+	}
+}
+
+func (p *litParser) expr() (MV, bool) {
+	p.ws()
+	if p.i >= len(p.s) {
+		return MV{}, false
+	}
+	switch {
+	case p.s[p.i] == '(':
+		p.i++
+		v, ok := p.expr()
+		p.ws()
+		if !ok || p.i >= len(p.s) || p.s[p.i] != ')' {
+			return MV{}, false
+		}
+		p.i++
+		return v, true
+	case p.s[p.i] == '"':
+		start := p.i
+		p.i++
+		for p.i < len(p.s) && p.s[p.i] != '"' {
+			if p.s[p.i] == '\\' {
+				p.i++
+			}
+			p.i++
+		}
+		if p.i >= len(p.s) {
+			return MV{}, false
+		}
+		p.i++
+		u, err := strconv.Unquote(p.s[start:p.i])
+		if err != nil {
+			return MV{}, false
+		}
+		return strMV(u), true
+	}
+	for _, conv := range []string{"int", "string", "float64"} {
+		if strings.HasPrefix(p.s[p.i:], conv+"(") {
+			p.i += len(conv) + 1
+			v, ok := p.expr()
+			p.ws()
+			if !ok || p.i >= len(p.s) || p.s[p.i] != ')' {
+				return MV{}, false
+			}
+			p.i++
+			switch {
+			case conv == "int" && v.T == "int", conv == "string" && v.T == "string", conv == "float64" && v.T == "float64":
+				return v, true
+			case conv == "float64" && v.T == "int":
+				n, _ := strconv.ParseInt(v.S, 10, 64)
+				return MV{T: "float64", S: fmtFloatG(float64(n))}, true
+			}
+			return MV{}, false
+		}
+	}
+	start := p.i
+	for p.i < len(p.s) && p.s[p.i] != ',' && p.s[p.i] != ')' && p.s[p.i] != ' ' && p.s[p.i] != '\t' {
+		p.i++
+	}
+	tok := p.s[start:p.i]
+	switch {
+	case tok == "true" || tok == "false":
+		return MV{T: "bool", S: tok}, true
+	case tok == "nil":
+		return MV{T: "nil"}, true
+	}
+	if n, err := strconv.ParseInt(tok, 10, 64); err == nil {
+		return MV{T: "int", S: strconv.FormatInt(n, 10)}, true
+	}
+	if f, err := strconv.ParseFloat(tok, 64); err == nil && strings.ContainsAny(tok, ".eE") {
+		return MV{T: "float64", S: fmtFloatG(f)}, true
+	}
+	return MV{}, false
 }
 
 // ErrUnpredicted marks results the model deliberately does not predict.
